@@ -75,7 +75,12 @@ func c05DocCond(r *rand.Rand, values val.Item) *refmodel.Cond {
 		return refmodel.Operand{Kind: "path", Path: p}
 	}
 	eq := func() string { return mon.Pick(r, []string{"=", "<>"}) }
-	switch r.Intn(21) {
+	switch r.Intn(24) {
+	case 21, 22:
+		// whole documents compared: maps and lists of which one is a part of the other (a sub-map, a prefix) are different
+		return &refmodel.Cond{Op: "cmp", Cmp: eq(), Args: []refmodel.Operand{pt("meta"), nv(mon.Pick(r, c05Metas))}}
+	case 23:
+		return &refmodel.Cond{Op: "cmp", Cmp: eq(), Args: []refmodel.Operand{pt("trail"), nv(mon.Pick(r, c05Trails))}}
 	case 0:
 		return &refmodel.Cond{Op: "cmp", Cmp: eq(), Args: []refmodel.Operand{pt("flags", r.Intn(3)), nv(val.Bool(r.Intn(2) == 0))}}
 	case 1:
@@ -125,8 +130,22 @@ func c05DocCond(r *rand.Rand, values val.Item) *refmodel.Cond {
 	}
 }
 
+// documents that are parts of one another: sub-maps and super-maps (also one level down), prefixes of lists
+var c05Metas = []val.V{
+	val.Map(map[string]val.V{"a": val.Num("1")}), val.Map(map[string]val.V{"a": val.Num("1"), "b": val.Num("2")}), val.Map(map[string]val.V{"b": val.Num("2")}),
+	val.Map(map[string]val.V{"a": val.Num("1"), "b": val.Num("3")}),
+	val.Map(map[string]val.V{"in": val.Map(map[string]val.V{"k": val.Str("v")})}), val.Map(map[string]val.V{"in": val.Map(map[string]val.V{"k": val.Str("v"), "l": val.Str("w")})}),
+}
+var c05Trails = []val.V{val.List(val.Num("1")), val.List(val.Num("1"), val.Num("2")), val.List(val.Num("2"), val.Num("1")), val.List(val.List(val.Num("1"))), val.List(val.List(val.Num("1"), val.Num("2")))}
+
 // c05Doc adds the document attributes the guards of c05DocCond look at.
 func c05Doc(r *rand.Rand, it val.Item) {
+	if r.Intn(2) == 0 {
+		it["meta"] = mon.Pick(r, c05Metas)
+	}
+	if r.Intn(3) == 0 {
+		it["trail"] = mon.Pick(r, c05Trails)
+	}
 	if r.Intn(3) != 0 {
 		it["slots"] = mon.Pick(r, []val.V{val.NS("1", "2"), val.NS("2", "1"), val.NS("1", "3"), val.NS("1")})
 	}
